@@ -422,6 +422,12 @@ def run_all(modname, tier, jobs):
             # (a cancellation left behind by an earlier query makes every later answer "unknown")
             # ... and a "failed" that rests on a candidate model only (the solver was undecided on the full query) is just
             # as shaky as an "unknown"
+            # ... and a path that ended outside the subset: state left behind by other units run earlier in the same worker
+            # process has made a path of an unchanged function end that way (seen once in a fresh-sandbox run, C17
+            # `cannot store None as str`: a branch that is pruned in a fresh process was kept); a genuine out-of-subset
+            # construct ends the same way again
+            if p.get("oos"):
+                return True
             return any(isinstance(o, dict) and (o.get("status") == "unknown" or
                                                 (o.get("status") == "failed" and "candidate" in str(o.get("backend", ""))))
                        for o in p.get("obs", []) or [])
